@@ -14,7 +14,7 @@ def run(c):
     if c.replay:
         harness(c, 1, replay_ops=c.replay.get("replay_ops") or [])
     else:
-        harness(c, 20000 if c.thorough else 400)
+        harness(c, 16000 if c.thorough else 1200)
 
     def search():
         c.seed += 1000
